@@ -65,7 +65,7 @@ ACTIONS = ["DoAdd", "DoPull", "Deliver", "DoFinish", "DoKill", "AdvanceClock", "
 def model_check(ctx, prop, quick):
     restart = prop == "C18"
     wait = prop == "C17"
-    depth = {"C16": (6, 7), "C17": (5, 6), "C18": (5, 6)}[prop][0 if quick else 1]
+    depth = {"C16": (6, 8), "C17": (5, 7), "C18": (5, 7)}[prop][0 if quick else 1]
     module, cfg = mc_cfg(prop, depth, restart=restart, wait=wait,
                          killers=['"admin"'] if prop != "C17" else ['"admin"', "w1", "w2", "w3"])
     res = run_mc(ctx, "mc", module, cfg, timeout=3600 if not quick else 900, heap="16g")
